@@ -112,7 +112,7 @@ fn pos_steps<S: Src, const N: usize>(s: &mut S, alpha: &[char], k: usize) {
     let mut chars = ['a'; N];
     let mut buf = [0u8; 32];
     let mut len = 0;
-    let mut starts = [0usize; 9];
+    let mut starts = [0usize; 12];
     let mut i = 0;
     while i < N {
         let idx = s.below(alpha.len());
@@ -160,10 +160,26 @@ pub fn pos_wide3<S: Src>(s: &mut S) {
 pub fn pos_wide4<S: Src>(s: &mut S) {
     pos_steps::<S, 4>(s, WIDE, 2)
 }
+pub fn pos_wide5<S: Src>(s: &mut S) {
+    pos_steps::<S, 5>(s, WIDE, 2)
+}
+pub fn pos_narrow6<S: Src>(s: &mut S) {
+    pos_steps::<S, 6>(s, NARROW, 2)
+}
+pub fn pos_wide6<S: Src>(s: &mut S) {
+    pos_steps::<S, 6>(s, WIDE, 2)
+}
+pub fn pos_narrow8<S: Src>(s: &mut S) {
+    pos_steps::<S, 8>(s, NARROW, 2)
+}
 
 harnesses! {
     #[kani::unwind(6)] #[kani::stub(pest::Span::start, stub_start)] #[kani::stub(pest::iterators::Pair::as_span, stub_as_span)] c14_pos_narrow3 => pos_narrow3;
     #[kani::unwind(7)] #[kani::stub(pest::Span::start, stub_start)] #[kani::stub(pest::iterators::Pair::as_span, stub_as_span)] c14_pos_narrow4 => pos_narrow4;
     #[kani::unwind(6)] #[kani::stub(pest::Span::start, stub_start)] #[kani::stub(pest::iterators::Pair::as_span, stub_as_span)] c14_pos_wide3 => pos_wide3;
     #[kani::unwind(7)] #[kani::stub(pest::Span::start, stub_start)] #[kani::stub(pest::iterators::Pair::as_span, stub_as_span)] c14_pos_wide4 => pos_wide4;
+    #[kani::unwind(8)] #[kani::stub(pest::Span::start, stub_start)] #[kani::stub(pest::iterators::Pair::as_span, stub_as_span)] c14_pos_wide5 => pos_wide5;
+    #[kani::unwind(9)] #[kani::stub(pest::Span::start, stub_start)] #[kani::stub(pest::iterators::Pair::as_span, stub_as_span)] c14_pos_narrow6 => pos_narrow6;
+    #[kani::unwind(9)] #[kani::stub(pest::Span::start, stub_start)] #[kani::stub(pest::iterators::Pair::as_span, stub_as_span)] c14_pos_wide6 => pos_wide6;
+    #[kani::unwind(11)] #[kani::stub(pest::Span::start, stub_start)] #[kani::stub(pest::iterators::Pair::as_span, stub_as_span)] c14_pos_narrow8 => pos_narrow8;
 }
